@@ -383,7 +383,7 @@ func TestC05(t *testing.T) {
 						continue // constants on the large fields only where the constant path differs materially
 					}
 					if op == "ToBinary" {
-						jobs = append(jobs, job{op, mask, b, f, f.mod.BitLen()}, job{op, mask, b, f, 3})
+						jobs = append(jobs, job{op, mask, b, f, f.mod.BitLen()}, job{op, mask, b, f, 3}, job{op, mask, b, f, f.mod.BitLen() + 2})
 						if !f.small {
 							jobs = append(jobs, job{op, mask, b, f, f.mod.BitLen() - 1})
 						}
